@@ -18,7 +18,9 @@ EXPLANATION = (
     "evaluation over the suffix domain; Equinox's rule is a frozen fact cross-checked against equinox._serialisation._with_suffix); "
     "C18.3 the reader's skeleton is eqx.filter_eval_shape(cls, *args, **kwargs) of the same class and arguments, neither side passes "
     "filter_spec / is_leaf, the writer serialises self; C18.4 every policy class derives from Serializable and no array-annotated "
-    "policy field is static."
+    "policy field is static; C18.5 the skeleton can be built at all: no constructor / function of the policy package, and no space member the "
+    "policy package reads, forces a jax.numpy value or an array-annotated constructor parameter to a Python truth value / number (it runs under "
+    "eqx.filter_eval_shape); C18.6 mapping-valued pytree fields keep their order through unflatten; C18.7 no exception on the save / load path is swallowed."
 )
 ASSUMPTIONS = [
     "eqx.tree_serialise_leaves / tree_deserialise_leaves round-trip array leaves bit-identically and raise on shape mismatch (Equinox; not decided)",
@@ -277,11 +279,22 @@ def check_constructors_traceable(s):
     saved but never loaded. Rule: no constructor in the policy package branches on the result of a jax.numpy / jax.lax call."""
     P = s.prog
     n = 0
+    # members of the space classes that the policy package reads off a `...space` expression: they run inside the policy's
+    # constructor (flat_size, shape) or its jitted call (flatten_sample), so the same rule binds them
+    used = set()
+    for m in P.modules.values():
+        if m.name.startswith("lerax.policy"):
+            for a in ast.walk(m.tree):
+                if isinstance(a, ast.Attribute) and ast.unparse(a.value).endswith("space"):
+                    used.add(a.attr)
     for m in sorted(P.modules.values(), key=lambda m_: m_.name):
-        if not m.name.startswith("lerax.policy"):
+        if m.name.startswith("lerax.space"):
+            units = [(ci.name, mname, ci.methods[mname]) for ci in m.classes.values() for mname in ci.methods if mname in used]
+        elif m.name.startswith("lerax.policy"):
+            units = [(ci.name, mname, ci.methods[mname]) for ci in m.classes.values() for mname in ci.methods if mname not in ("render",)]
+            units += [(m.name.rsplit(".", 1)[-1], fname, fn_) for fname, fn_ in m.functions.items()]
+        else:
             continue
-        units = [(ci.name, mname, ci.methods[mname]) for ci in m.classes.values() for mname in ci.methods if mname not in ("render",)]
-        units += [(m.name.rsplit(".", 1)[-1], fname, fn_) for fname, fn_ in m.functions.items()]
         for owner, mname, fn in units:
             if True:
                 n += 1
@@ -302,6 +315,30 @@ def check_constructors_traceable(s):
                                     out.append(q)
                     return out
 
+                # parameters declared array-valued (jaxtyping annotation): deserialize passes them through filter_eval_shape, so
+                # inside the constructor they are tracers; only their static metadata may be read at Python level
+                aparams = {a.arg for a in fn.args.posonlyargs + fn.args.args + fn.args.kwonlyargs
+                           if a.annotation is not None and "Array" in ast.unparse(a.annotation) and "None" not in ast.unparse(a.annotation)}
+
+                def forced_params(expr):
+                    skip = set()
+                    for c in ast.walk(expr):
+                        if isinstance(c, ast.Attribute) and c.attr in ("shape", "ndim", "dtype", "size") and isinstance(c.value, ast.Name):
+                            skip.add(id(c.value))
+                        if isinstance(c, ast.Call) and isinstance(c.func, ast.Name) and c.func.id in ("isinstance", "len", "type"):
+                            skip.update(id(x) for a in c.args for x in ast.walk(a))
+                        if isinstance(c, ast.Call):
+                            q = None
+                            f, parts = c.func, []
+                            while isinstance(f, ast.Attribute):
+                                parts.append(f.attr)
+                                f = f.value
+                            if isinstance(f, ast.Name):
+                                q = P.resolve_name(m, f.id, list(reversed(parts)))
+                            if q in ARRAY_FREE:
+                                skip.update(id(x) for a in c.args for x in ast.walk(a))
+                    return [c.id for c in ast.walk(expr) if isinstance(c, ast.Name) and c.id in aparams and id(c) not in skip]
+
                 for node in ast.walk(fn):
                     tests = []
                     if isinstance(node, (ast.If, ast.While, ast.IfExp)):
@@ -318,6 +355,8 @@ def check_constructors_traceable(s):
                         ac = array_calls(t)
                         if ac:
                             bad.append(f"line {getattr(t, 'lineno', '?')}: `{ast.unparse(t)[:80]}` forces the value of {ac[0]}")
+                        elif mname == "__init__" and forced_params(t):
+                            bad.append(f"line {getattr(t, 'lineno', '?')}: `{ast.unparse(t)[:80]}` forces the value of the array-valued parameter {forced_params(t)[0]}")
                 s.ob("C18.5", f"{owner}.{mname}", not bad, "the constructor / policy function never forces an array value to a Python truth value / number (it can run under eqx.filter_eval_shape and jit)",
                      P.loc(m, fn), key="constructor-forces-array", detail="; ".join(sorted(set(bad))[:4]),
                      necessary_for="a saved policy of every class can be loaded again: deserialize builds its skeleton by tracing the constructor")
